@@ -46,8 +46,8 @@ Qed.
 
 (* (1) Eviction soundness, for every fuel, heap, command and task: when run_task discards a task as
    unwakeable (Cancelled) the task is blocked on a one-shot request whose sender is gone, on a join!/
-   select! all of whose requests are gone or already answered, or is a hosting task (that leaf is not
-   covered yet) - never on a stream, a join handle, a pending self-wake or a request that can still be
+   select! all of whose requests are gone or already answered, or is a hosting task (that leaf is
+   excluded by C07_evict_sound below, under the order invariant) - never on a stream, a join handle, a pending self-wake or a request that can still be
    answered.  Rests on poll_registers: a Pending poll leaves the poll's waker registered in every open
    cell of the future's wait-set (or has set the woken flag). *)
 Theorem C07_poll_registers : forall fuel c w fs H fs' H',
@@ -57,6 +57,35 @@ Theorem C07_evict_sound_partial : forall fuel cid slot H H',
   run_task (S fuel) cid slot H = Some (Cancelled, H') ->
   exists t, slab_get slot (gcmd cid H') = Some t /\ evictable (t_fs t).
 Proof. exact evict_sound. Qed.
+
+(* (1) in full, the hosting leaf included (coq/Rt/EvictHost.v): run_task never discards a task that HOSTS a command.
+   Stream::poll_next registers the host's waker in the hosted command's cell before anything runs; the only
+   thing that empties the cell is a wake of one of the hosted command's tasks, which wakes the registered waker,
+   and a CommandWaker marks itself woken first - so after a Pending poll the cell still holds this poll's waker
+   (a clone survives) or the waker was woken, and the eviction rule answers Suspended.  What IS evicted is
+   blocked on one-shot requests whose sender is gone, and on nothing else.  The one assumption is the ORDER
+   invariant of the heap (a task only hosts commands created after its own command: nobody polls a hosted
+   command except its host); it is proved to hold at the start of every run and to be preserved by every
+   action of the host and every step of the runtime, for every program, schedule and fuel. *)
+From Crux Require Rt.EvictHost.
+Theorem C07_evict_sound : forall fuel cid slot H H',
+  EvictHost.OrdH H -> run_task (S fuel) cid slot H = Some (Cancelled, H') ->
+  exists t, slab_get slot (gcmd cid H') = Some t /\ EvictHost.evictable_strict (t_fs t).
+Proof. exact EvictHost.evict_sound_full. Qed.
+Theorem C07_hosting_poll_keeps_its_waker_registered : forall fuel c w fs H fs' H' x me mv k,
+  c < length (cmds H) -> EvictHost.host_gt c fs -> EvictHost.OrdH H ->
+  poll fuel c w fs H = Some (Pend fs', H') -> f_leaf fs' = LHost x me mv k ->
+  c < x /\ (c_atomic (gcmd x H') = Some w \/ woken_of w H') /\ EvictHost.OrdH H'.
+Proof. exact EvictHost.poll_registers_host. Qed.
+Theorem C07_order_invariant_at_start : forall c,
+  EvictHost.OrdH (snd (new_cmd (cx_name (compile c)) None [] (cx_main (compile c)) (cx_extra (compile c)) H0)).
+Proof. exact EvictHost.direct_start_OrdH. Qed.
+Theorem C07_order_invariant_preserved : forall fuel top st st',
+  EvictHost.dreach fuel top st st' -> EvictHost.OrdH (d_H st) -> EvictHost.OrdH (d_H st').
+Proof. exact EvictHost.dreach_OrdH. Qed.
+Theorem C07_order_invariant_preserved_by_settle : forall fuel c H H',
+  settle fuel c H = Some H' -> EvictHost.OrdH H -> EvictHost.OrdH H'.
+Proof. exact EvictHost.OrdH_settle. Qed.
 
 (* A finished task stays finished and a task that is gone stays gone, through every step of the runtime on
    any command (so a JoinHandle that has once seen its task finish, or its task dropped, is never blocked
